@@ -24,7 +24,9 @@ HostsU == {"a.com", "s.a.com", "t.s.a.com", "b.com", "a.co.uk", "s.a.co.uk", "b.
            \* IPv6 literals (the brackets are part of the host component) and fully qualified names
            "[::1]", "[2001:db8::1]", "a.com.", "s.a.com.",
            \* a top-level label outside the public suffix list (default rule: the suffix is the last label)
-           "a.internal", "s.a.internal", "b.internal"}
+           "a.internal", "s.a.internal", "b.internal",
+           \* hosts that are nothing but a public suffix, or a single label: each is its own site
+           "co.uk", "com", "printer"}
 \* with a trailing dot the statement does not say whether 'a.com.' and 'a.com' are the same registrable
 \* domain: the party is left unspecified for those hosts, the hostname is not
 TrailingDot(h) == Len(Chars(h)) > 0 /\ Chars(h)[Len(Chars(h))] = "."
@@ -34,7 +36,7 @@ Ports == {"", "8080"}
 \* for the special schemes a backslash ends the authority like a slash does (WHATWG URL): text after it,
 \* an '@' included, belongs to the path
 Rests == {"/", "", "/p?q=1", "?q=a@b.com", "#f@b.com", "/a.com/@x", "/p#f?x", "\\@b.com/x", "\\p"}
-SrcHosts == {"a.com", "s.a.com", "b.com", "a.co.uk", "b.co.uk", "co.uk", "1.2.3.4", "localhost", "t.s.a.com", "[::1]", "a.internal", "t.a.internal"}
+SrcHosts == {"a.com", "s.a.com", "b.com", "a.co.uk", "b.co.uk", "co.uk", "1.2.3.4", "localhost", "t.s.a.com", "[::1]", "a.internal", "t.a.internal", "com", "intranet"}
 Aliases == IF Big THEN {"script", "document", "websocket", "xhr", "foo"} ELSE {"script", "foo"}
 
 LowerStr(s) == Str(LowerS(Chars(s)))
